@@ -112,7 +112,26 @@ func genCase(t *rapid.T) Case {
 			c.Msgs = append(c.Msgs, script.CMsg{K: "P", Name: "x", Query: "select 1"})
 			class["foreign-message-in-copy"] = true
 		case k == 16:
-			c.Msgs = append(c.Msgs, script.CMsg{K: "raw", Data: []byte{'Y', 0, 0, 0, 4}})
+			// every other frontend message type is foreign to a COPY stream as well (Terminate included:
+			// to the reader it is an abort, not an end of data)
+			switch rapid.IntRange(0, 7).Draw(t, "foreign-kind") {
+			case 0:
+				c.Msgs = append(c.Msgs, script.CMsg{K: "raw", Data: []byte{'Y', 0, 0, 0, 4}})
+			case 1:
+				c.Msgs = append(c.Msgs, script.CMsg{K: "X"})
+			case 2:
+				c.Msgs = append(c.Msgs, script.CMsg{K: "B", Portal: "x", Name: "x"})
+			case 3:
+				c.Msgs = append(c.Msgs, script.CMsg{K: "D", Kind: 'S', Name: "x"})
+			case 4:
+				c.Msgs = append(c.Msgs, script.CMsg{K: "E", Portal: "x"})
+			case 5:
+				c.Msgs = append(c.Msgs, script.CMsg{K: "C", Kind: 'P', Portal: "x"})
+			case 6:
+				c.Msgs = append(c.Msgs, script.CMsg{K: "raw", Data: pgwire.Password("pw")})
+			default:
+				c.Msgs = append(c.Msgs, script.CMsg{K: "raw", Data: pgwire.Msg('F', []byte{0, 0, 0, 1, 0, 0, 0, 0, 0, 0})})
+			}
 			class["foreign-message-in-copy"] = true
 		case k == 17:
 			body := make([]byte, limit+1+rapid.IntRange(0, 3000).Draw(t, "over"))
